@@ -23,6 +23,8 @@ var vC06Progs = []string{
 	"`{d6}`", "`{% 2d6 %}`", "[d6, 2]kh", "[d6,d6].kh(1)", "d", "2d", "d6 + d6 * 2d4",
 	"v1 = [d6, d6]; v1[0]", "if d6 > 0 { d6 }", "i = 0; while i < 2 { i = i + 1; d6 }",
 	"{'a': d6}.a", "d6 ? d6 : d6", "d(d6)", "(d4)d(d6)", "v1 = [3,1,2]; v1.shuffle(); v1.rand()",
+	"func g1() { d20 }; func fn1() { g1() }; fn1()", "func g1() { d20 }; &v1 = g1(); v1", "&v1 = d6; &v2 = v1 + d6; v2",
+	"func g1() { 2a6 }; func fn1() { `{g1()}` }; fn1()", "func g1() { [1,2,3].rand() }; func fn1() { g1() }; fn1()",
 }
 
 func vSeededVM() *Context {
@@ -32,13 +34,20 @@ func vSeededVM() *Context {
 	return vm
 }
 
-//vh:prop=C06 tiers=quick,thorough sigkeys=prog summaries=Roll:roll-log unwind=8 budget_s=900 bounds="40 programs covering every dice family, the random array methods, and dice inside functions, computed values, template holes, containers, conditions, loops and default-sides expressions, on a seeded VM; dice values fixed to low faces (1,2 alternating: provenance does not depend on values), the generator receiver of every draw is logged; DefaultDiceSideExpr in {unset, 'd6'}"
+//vh:prop=C06 tiers=quick,thorough sigkeys=prog summaries=Roll:roll-log unwind=8 budget_s=900 bounds="45 programs covering every dice family, the random array methods, and dice inside functions, computed values, template holes, containers, conditions, loops and default-sides expressions, on a VM seeded through Seed+Init or with a generator installed directly; dice up to three script calls deep; dice values fixed to low faces (1,2 alternating: provenance does not depend on values), the generator receiver of every draw is logged; DefaultDiceSideExpr in {unset, 'd6'}"
 func VH_C06_prov() {
 	k := vParam("prog", -1)
 	if k < 0 {
 		k = vChoice("prog", len(vC06Progs))
 	}
 	vm := vSeededVM()
+	if vChoice("installed-generator", 2) == 1 {
+		// the host installs a generator state directly (e.g. from GetCurSeed)
+		vm = vNewVM()
+		src := &rand.PCGSource{}
+		src.Seed(7)
+		vm.RandSrc = src
+	}
 	if vChoice("defaultSides", 2) == 1 {
 		vm.Config.DefaultDiceSideExpr = "d6"
 	}
